@@ -100,4 +100,11 @@ AddTypesResult(s, doc, dv) ==
        ELSE [ok |-> TRUE, s |-> a.s, why |-> "", off |-> "", offs |-> {}]
 
 LoadVia(s, doc, dv, via) == IF via = "types" THEN AddTypesResult(s, doc, dv) ELSE LoadResult(s, doc, dv)
+
+\* Root.RegisterType / Root.RegisterField bind Go types, struct fields and methods to declared types (for the reflection
+\* resolver; RegisterField also says in which order a method takes the field's arguments).  They are no part of the type
+\* system: accepted or refused, the declared schema is what it was.  A stuttering step here; the harness takes such
+\* steps - registrations that must be refused - between the loads of a history (cmd/schema/regprobe.go) and the
+\* comparison that follows every load judges the root.
+Registration(s) == s
 =============================================================================
